@@ -41,7 +41,7 @@ func C17(r *core.Report) {
 	c17HTTPStatus(r)
 	c17RemoteReadComplete(r)
 	checkNoEscapingFieldAlias(r, "C17.R7", "range-cache", "RangeCache")
-	r.Floor("C17.R7", 2)
+	r.Floor("C17.R7", 1)
 	c17EntryLengthInvariant(r)
 	r.Floor("C17.R8", 1)
 	c17NoErrorErasure(r)
@@ -49,8 +49,8 @@ func C17(r *core.Report) {
 	r.Floor("C17.R9", 1)
 	r.Floor("C17.R1", 10)
 	r.Floor("C17.R2", 1)
-	r.Floor("C17.R3", 3)
-	r.Floor("C17.R4", 3)
+	r.Floor("C17.R3", 2)
+	r.Floor("C17.R4", 2)
 	r.Floor("C17.R5", 1)
 	r.Floor("C17.R6", 1)
 }
@@ -220,6 +220,14 @@ func c17Refusal(r *core.Report) {
 					if sel, ok := core.Unparen(x.Fun).(*ast.SelectorExpr); ok && (sel.Sel.Name == "Lock" || sel.Sel.Name == "RLock") && onRecvField(sel.X, "mu") {
 						acc = true
 					}
+					// a method of the cache object that touches the map itself (dropSubsetsOf, store, forget)
+					if sel, ok := core.Unparen(x.Fun).(*ast.SelectorExpr); ok && recv != nil && core.ObjOf(info, sel.X) == recv {
+						if fo := core.Callee(info, x); fo != nil {
+							if h := p.ByObj[fo.Origin()]; h != nil && h.Body != nil && h != f && touchesCacheMap(h) {
+								acc = true
+							}
+						}
+					}
 				case *ast.IndexExpr:
 					if onRecvField(x.X, "cache") {
 						acc = true
@@ -353,6 +361,37 @@ func c17Refusal(r *core.Report) {
 				}
 				if c, ok := core.Unparen(fc.Expr).(*ast.CallExpr); ok && fc.Truth && boundsEndBySize(c) {
 					return true
+				}
+				// `if err := rc.checkBounds(Range{start, end}); err != nil { return err }`: the nil outcome of a validating
+				// method of the cache object whose success returns are reached only under valid-for-size of its Range parameter
+				if x, isNil, isCmp := core.NilCompare(info, fc.Expr); isCmp && isNil == fc.Truth && fc.Edge != nil {
+					if eo := core.ObjOf(info, x); eo != nil && core.IsErrorType(eo.Type()) {
+						for _, dn := range stmtNodes(g) {
+							as, isAs := dn.Ast.(*ast.AssignStmt)
+							if !isAs || len(as.Rhs) != 1 || core.ObjOf(info, as.Lhs[len(as.Lhs)-1]) != eo || !g.Dominates(dn, fc.Edge) {
+								continue
+							}
+							vc, isCall := core.Unparen(as.Rhs[0]).(*ast.CallExpr)
+							if !isCall || len(vc.Args) != 1 {
+								continue
+							}
+							arg := core.Unparen(vc.Args[0])
+							isRangeWithEnd := false
+							if o := core.ObjOf(info, arg); o != nil && ranges[o] {
+								isRangeWithEnd = true
+							}
+							if cl, isLit := arg.(*ast.CompositeLit); isLit && len(cl.Elts) == 2 && strings.HasSuffix(core.NamedTypeName(info.TypeOf(cl)), ".Range") {
+								isRangeWithEnd = true
+							}
+							fo := core.Callee(info, vc)
+							if !isRangeWithEnd || fo == nil {
+								continue
+							}
+							if h := p.ByObj[fo.Origin()]; h != nil && rangeValidator(p, h) {
+								return true
+							}
+						}
+					}
 				}
 				be, ok := core.Unparen(fc.Expr).(*ast.BinaryExpr)
 				if !ok {
@@ -543,6 +582,94 @@ func c17EntryLengthInvariant(r *core.Report) {
 	const rule = "C17.R8"
 	p := r.Prog
 	n := 0
+	var checkStore func(fn *core.Func, g *core.Graph, node *core.GNode, keyExpr, valExpr ast.Expr, at ast.Node, depth int)
+	checkStore = func(fn *core.Func, g *core.Graph, node *core.GNode, keyExpr, valExpr ast.Expr, at ast.Node, depth int) {
+		info := fn.Pkg.TypesInfo
+		// the key: Range{a, b} written in place, or a local that holds such a value (wanted := Range{a, b})
+		kl, ok := core.Unparen(keyExpr).(*ast.CompositeLit)
+		var keyObj types.Object
+		if !ok {
+			if ko := core.ObjOf(info, keyExpr); ko != nil {
+				if d := singleDef(fn, ko); d != nil {
+					if dl, isLit := core.Unparen(d).(*ast.CompositeLit); isLit {
+						kl, ok, keyObj = dl, true, ko
+					}
+				}
+			}
+		}
+		if valExpr == nil || !ok || len(kl.Elts) != 2 {
+			// key and value are parameters of a storing helper (rc.store(target, value)): the length test is looked for
+			// at the helper's call sites, on the arguments
+			ko, vo := core.ObjOf(info, keyExpr), core.ObjOf(info, valExpr)
+			if depth == 0 && ko != nil && vo != nil && isParamOf(fn, ko) && isParamOf(fn, vo) && fn.Lit == nil {
+				ki, vi := -1, -1
+				for i := 0; fn.ParamObj(i) != nil; i++ {
+					if types.Object(fn.ParamObj(i)) == ko {
+						ki = i
+					}
+					if types.Object(fn.ParamObj(i)) == vo {
+						vi = i
+					}
+				}
+				for _, cs := range p.Callers(fn) {
+					if cs.In == nil || ki < 0 || vi < 0 || ki >= len(cs.Call.Args) || vi >= len(cs.Call.Args) {
+						continue
+					}
+					cg := p.Graph(cs.In)
+					if cn := cg.NodeOf(cs.Call.Pos()); cn != nil {
+						checkStore(cs.In, cg, cn, cs.Call.Args[ki], cs.Call.Args[vi], cs.Call, 1)
+					}
+				}
+			}
+			return
+		}
+		n++
+		k := fmt.Sprintf("%s#cache-store@%d-value-length=range-length", fn.Key, n)
+		vo, ao, bo := core.ObjOf(info, valExpr), core.ObjOf(info, kl.Elts[0]), core.ObjOf(info, kl.Elts[1])
+		if vo == nil || ((ao == nil || bo == nil) && keyObj == nil) {
+			r.Undecided(rule, k, pos(r, at), "value or key bounds of the store are not plain variables")
+			return
+		}
+		// the comparison is on both bounds: on the variables the key was built from, or on K[0] and K[1] of the key local
+		mentionsBounds := func(e ast.Expr) bool {
+			if ao != nil && bo != nil && core.Mentions(info, e, ao) && core.Mentions(info, e, bo) {
+				return true
+			}
+			if keyObj == nil {
+				return false
+			}
+			has := map[int64]bool{}
+			ast.Inspect(e, func(m ast.Node) bool {
+				if kx, isIx := m.(*ast.IndexExpr); isIx && core.ObjOf(info, kx.X) == keyObj {
+					if v, isC := core.ConstInt(info, kx.Index); isC {
+						has[v] = true
+					}
+				}
+				return true
+			})
+			return has[0] && has[1]
+		}
+		okLen, stale := false, false
+		for _, fc := range g.FactsAt(node) {
+			be, ok := core.Unparen(fc.Expr).(*ast.BinaryExpr)
+			if !ok || fc.Tag != nil || !((be.Op == token.NEQ && !fc.Truth) || (be.Op == token.EQL && fc.Truth)) {
+				continue
+			}
+			if core.Mentions(info, be, vo) && mentionsBounds(be) && strings.Contains(core.ExprStr(be), "len(") {
+				if g.FactFresh(fc, node) {
+					okLen = true
+				} else {
+					stale = true
+				}
+			}
+		}
+		why := "no comparison of len(value) with the length of the key range dominates the store"
+		if stale {
+			why = "the value or the bounds of the key range are changed between the length test and the store"
+		}
+		r.Check(okLen, rule, k, pos(r, at), "the entry stored has exactly the length of its key range (tested, and nothing reassigned since)",
+			why+": an entry whose bytes are longer than or shifted against its range answers later reads with the wrong bytes")
+	}
 	for _, f := range p.FuncsInPkg("range-cache") {
 		if f.Body == nil || strings.HasSuffix(p.FileOf(f.Pos()), "_test.go") {
 			continue
@@ -597,67 +724,7 @@ func c17EntryLengthInvariant(r *core.Report) {
 					valExpr = kv.Value
 				}
 			}
-			// the key: Range{a, b} written in place, or a local that holds such a value (wanted := Range{a, b})
-			kl, ok := core.Unparen(ix.Index).(*ast.CompositeLit)
-			var keyObj types.Object
-			if !ok {
-				if ko := core.ObjOf(info, ix.Index); ko != nil {
-					if d := singleDef(f, ko); d != nil {
-						if dl, isLit := core.Unparen(d).(*ast.CompositeLit); isLit {
-							kl, ok, keyObj = dl, true, ko
-						}
-					}
-				}
-			}
-			if valExpr == nil || !ok || len(kl.Elts) != 2 {
-				continue
-			}
-			n++
-			k := fmt.Sprintf("%s#cache-store@%d-value-length=range-length", f.Key, n)
-			vo, ao, bo := core.ObjOf(info, valExpr), core.ObjOf(info, kl.Elts[0]), core.ObjOf(info, kl.Elts[1])
-			if vo == nil || ((ao == nil || bo == nil) && keyObj == nil) {
-				r.Undecided(rule, k, pos(r, as), "value or key bounds of the store are not plain variables")
-				continue
-			}
-			// the comparison is on both bounds: on the variables the key was built from, or on K[0] and K[1] of the key local
-			mentionsBounds := func(e ast.Expr) bool {
-				if ao != nil && bo != nil && core.Mentions(info, e, ao) && core.Mentions(info, e, bo) {
-					return true
-				}
-				if keyObj == nil {
-					return false
-				}
-				has := map[int64]bool{}
-				ast.Inspect(e, func(m ast.Node) bool {
-					if kx, isIx := m.(*ast.IndexExpr); isIx && core.ObjOf(info, kx.X) == keyObj {
-						if v, isC := core.ConstInt(info, kx.Index); isC {
-							has[v] = true
-						}
-					}
-					return true
-				})
-				return has[0] && has[1]
-			}
-			okLen, stale := false, false
-			for _, fc := range g.FactsAt(node) {
-				be, ok := core.Unparen(fc.Expr).(*ast.BinaryExpr)
-				if !ok || fc.Tag != nil || !((be.Op == token.NEQ && !fc.Truth) || (be.Op == token.EQL && fc.Truth)) {
-					continue
-				}
-				if core.Mentions(info, be, vo) && mentionsBounds(be) && strings.Contains(core.ExprStr(be), "len(") {
-					if g.FactFresh(fc, node) {
-						okLen = true
-					} else {
-						stale = true
-					}
-				}
-			}
-			why := "no comparison of len(value) with the length of the key range dominates the store"
-			if stale {
-				why = "the value or the bounds of the key range are changed between the length test and the store"
-			}
-			r.Check(okLen, rule, k, pos(r, as), "the entry stored has exactly the length of its key range (tested, and nothing reassigned since)",
-				why+": an entry whose bytes are longer than or shifted against its range answers later reads with the wrong bytes")
+			checkStore(f, g, node, ix.Index, valExpr, as, 0)
 		}
 	}
 	if n == 0 {
@@ -862,4 +929,121 @@ func (a *aliasAnalysis) aliasingReturns(fn *core.Func, taintedParams map[int]boo
 		return true
 	})
 	return out
+}
+
+// touchesCacheMap: the method reads, ranges over, stores into or deletes from a map field of its receiver.
+func touchesCacheMap(h *core.Func) bool {
+	recv := h.RecvObj()
+	if recv == nil {
+		return false
+	}
+	info := h.Pkg.TypesInfo
+	isMapField := func(e ast.Expr) bool {
+		sel, ok := core.Unparen(e).(*ast.SelectorExpr)
+		if !ok || core.ObjOf(info, sel.X) != types.Object(recv) {
+			return false
+		}
+		_, isMap := info.TypeOf(sel).Underlying().(*types.Map)
+		return isMap
+	}
+	found := false
+	ast.Inspect(h.Body, func(m ast.Node) bool {
+		switch x := m.(type) {
+		case *ast.IndexExpr:
+			if isMapField(x.X) {
+				found = true
+			}
+		case *ast.RangeStmt:
+			if isMapField(x.X) {
+				found = true
+			}
+		case *ast.CallExpr:
+			if core.BuiltinName(info, x) == "delete" && len(x.Args) == 2 && isMapField(x.Args[0]) {
+				found = true
+			}
+		}
+		return !found
+	})
+	return found
+}
+
+// rangeValidator: h(r Range) error on the cache object returns nil only on paths where r is known to be valid for the
+// size of the file: a dominating fact `r.valid(recv.size)` of a one-line validity method that contains r[1] <= size, or the
+// comparison r[1] <= recv.size itself.
+func rangeValidator(p *core.Prog, h *core.Func) bool {
+	rp, recv := h.ParamObj(0), h.RecvObj()
+	if rp == nil || recv == nil || h.ParamObj(1) != nil || h.Body == nil {
+		return false
+	}
+	info := h.Pkg.TypesInfo
+	g := p.Graph(h)
+	isSize := func(e ast.Expr) bool {
+		sel, ok := core.Unparen(e).(*ast.SelectorExpr)
+		return ok && sel.Sel.Name == "size" && core.ObjOf(info, sel.X) == types.Object(recv)
+	}
+	n := 0
+	for _, rn := range g.Returns() {
+		if nilErr, dec := isNilErrReturn(h, rn); !(dec && nilErr) {
+			continue
+		}
+		n++
+		ok := false
+		for _, fc := range g.FactsAt(rn) {
+			if fc.Tag != nil {
+				continue
+			}
+			if c, isCall := core.Unparen(fc.Expr).(*ast.CallExpr); isCall && fc.Truth && len(c.Args) == 1 && isSize(c.Args[0]) {
+				sel, isSel := core.Unparen(c.Fun).(*ast.SelectorExpr)
+				if !isSel || core.ObjOf(info, sel.X) != types.Object(rp) {
+					continue
+				}
+				if fo := core.Callee(info, c); fo != nil {
+					if v := p.ByObj[fo.Origin()]; v != nil && v.Body != nil && len(v.Body.List) == 1 && v.RecvObj() != nil && v.ParamObj(0) != nil {
+						if rs, isRet := v.Body.List[0].(*ast.ReturnStmt); isRet && len(rs.Results) == 1 {
+							vi := v.Pkg.TypesInfo
+							for _, cj := range conjuncts(rs.Results[0]) {
+								be, isBin := core.Unparen(cj).(*ast.BinaryExpr)
+								if !isBin {
+									continue
+								}
+								l, rr, op := be.X, be.Y, be.Op
+								if op == token.GEQ || op == token.GTR {
+									l, rr = rr, l
+									op = map[token.Token]token.Token{token.GEQ: token.LEQ, token.GTR: token.LSS}[op]
+								}
+								if op != token.LEQ && op != token.LSS {
+									continue
+								}
+								ix, isIx := core.Unparen(l).(*ast.IndexExpr)
+								if !isIx || core.ObjOf(vi, ix.X) != types.Object(v.RecvObj()) {
+									continue
+								}
+								if k, isC := core.ConstInt(vi, ix.Index); isC && k == 1 && core.ObjOf(vi, rr) == types.Object(v.ParamObj(0)) {
+									ok = true
+								}
+							}
+						}
+					}
+				}
+			}
+			if be, isBin := core.Unparen(fc.Expr).(*ast.BinaryExpr); isBin {
+				x, y, op := be.X, be.Y, be.Op
+				if isSize(x) {
+					x, y = y, x
+					op = map[token.Token]token.Token{token.LSS: token.GTR, token.GTR: token.LSS, token.LEQ: token.GEQ, token.GEQ: token.LEQ}[op]
+				}
+				if ix, isIx := core.Unparen(x).(*ast.IndexExpr); isIx && isSize(y) && core.ObjOf(info, ix.X) == types.Object(rp) {
+					if k, isC := core.ConstInt(info, ix.Index); isC && k == 1 {
+						if (op == token.GTR && !fc.Truth) || (op == token.LEQ && fc.Truth) || (op == token.LSS && fc.Truth) || (op == token.GEQ && !fc.Truth) {
+							ok = true
+						}
+					}
+				}
+			}
+		}
+		if !ok {
+			return false
+		}
+	}
+	return n > 0
 }
